@@ -49,6 +49,26 @@ def decodeTimeout (units : List (Nat × Int)) (minLen maxLen : Nat) (acceptsSign
         if d == hourNs && t > maxInt64 / hourNs then .ok maxInt64
         else .ok (wrap64 (d * t))
 
+
+/-! ### what `serveGRPC` does with the header -/
+
+/-- the fate of a gRPC request as far as its `grpc-timeout` header decides it. -/
+inductive Gate where
+  | refused                        -- answered 400 before any handler is picked
+  | run (deadline : Option Int)    -- the handler runs under `context.WithTimeout(ctx, d)` (ns), or without a deadline
+deriving Repr, DecidableEq
+
+/-- `if v := r.Header.Get("grpc-timeout"); v != "" { to, err := decodeTimeout(v); if err != nil { 400; return }; ctx = WithTimeout(ctx, to) }`.
+`hdr = none`: no such header. -/
+def timeoutGate (decode : Bytes → Outcome Int) (hdr : Option Bytes) : Gate :=
+  match hdr with
+  | none => .run none
+  | some v =>
+    if v.isEmpty then .run none
+    else match decode v with
+      | .ok d => .run (some d)
+      | _ => .refused
+
 /-! ### cancellation fence of `streamGRPC` (transition system) -/
 
 inductive Op where | sendHeader | sendMsg | recvMsg
